@@ -20,7 +20,7 @@ LIB = os.path.dirname(HERE)
 VERIF = os.path.dirname(LIB)
 REPO = os.environ.get("LSF_REPO", "/repo")
 PY = os.path.join(REPO, "asl-workflow-engine", "py")
-RUN = os.path.join(VERIF, "run")
+RUN = os.environ.get("VERIF_RUN_DIR") or os.path.join(VERIF, "run")      # (a private scratch directory for runs started side by side, e.g. against mutants)
 os.makedirs(RUN, exist_ok=True)
 
 os.environ.setdefault("LOG_LEVEL", "CRITICAL")
